@@ -938,6 +938,9 @@ class SMTPClient(basic.LineReceiver, policies.TimeoutMixin):
     # None, perform no timeout checking.
     timeout = None
 
+    # Whether the next chunk passed to transformChunk begins a line.
+    _atLineStart = True
+
     def __init__(self, identity, logsize=10):
         if isinstance(identity, str):
             identity = identity.encode("ascii")
@@ -1075,6 +1078,7 @@ class SMTPClient(basic.LineReceiver, policies.TimeoutMixin):
             self.sendLine(b"RCPT TO:" + quoteaddr(self.lastAddress))
 
     def smtpState_data(self, code, resp):
+        self._atLineStart = True
         s = basic.FileSender()
         d = s.beginFileTransfer(self.getMailData(), self.transport, self.transformChunk)
 
@@ -1109,7 +1113,12 @@ class SMTPClient(basic.LineReceiver, policies.TimeoutMixin):
         being made sending the message body, the client will not time out.
         """
         self.resetTimeout()
-        return chunk.replace(b"\n", b"\r\n").replace(b"\r\n.", b"\r\n..")
+        stuffed = chunk.replace(b"\n", b"\r\n").replace(b"\r\n.", b"\r\n..")
+        if self._atLineStart and chunk[:1] == b".":
+            stuffed = b"." + stuffed
+        if chunk:
+            self._atLineStart = chunk[-1:] == b"\n"
+        return stuffed
 
     def finishedFileTransfer(self, lastsent):
         if lastsent != b"\n":
